@@ -130,6 +130,48 @@ def _iterates_whole(expr, struct):
     return all(norm(i) in ok for i in its)
 
 
+def composed_at(fnode, target, expr, stop_at=None):
+    """[(path conditions, expr with the assignments of the path substituted in order)] for every syntactic path to `target`.
+    An assignment whose value is the node `stop_at` is left symbolic (its name stands for that call's result)."""
+    from ..hints import paths_to
+    from ..flatten import _Subst
+    from ..loader import clone
+    out = []
+    for path in paths_to(fnode, target):
+        env = {}
+        for st in path.steps:
+            if st[0] == "assign":
+                _, name, val = st
+                if stop_at is not None and val is stop_at:
+                    env.pop(name, None)
+                    continue
+                env[name] = _Subst(env).visit(clone(val)) if env else val
+        out.append((path.conds, _Subst(env).visit(clone(expr)) if env else expr))
+    return out
+
+
+def unwrap_passes(e):
+    """for_each_in(L3, for_each_in(L2, for_each_in(L1, X)))  ->  ([L1, L2, L3], X)"""
+    passes = []
+    while isinstance(e, ast.Call) and norm(e.func) == "for_each_in" and len(e.args) == 2 and isinstance(e.args[0], ast.Lambda):
+        passes.append(e.args[0])
+        e = e.args[1]
+    passes.reverse()
+    return passes, e
+
+
+def pass_kind(lam):
+    """(type tested, action text with the leaf written as `x`) of `lambda x: ACT(x) if isinstance(x, T) else x`, else None"""
+    b = lam.body
+    if not lam.args.args:
+        return None
+    x = lam.args.args[0].arg
+    if isinstance(b, ast.IfExp) and isinstance(b.test, ast.Call) and norm(b.test.func) == "isinstance" and len(b.test.args) == 2 \
+            and norm(b.test.args[0]) == x and norm(b.orelse) == x:
+        return norm(b.test.args[1]), norm(b.body).replace("(%s)" % x, "(x)").replace("%s." % x, "x.")
+    return None
+
+
 def rule_args(repo, rule):
     fe = repo.fn(RT, "for_each_in")
     conv, struct = fe.params[0], fe.params[1]
@@ -218,31 +260,38 @@ def rule_args(repo, rule):
         return None
     fc = fcall[0]
     starred = [norm(a.value) for a in fc.args if isinstance(a, ast.Starred)]
-    last_conv = None
-    for c in calls:
-        if any(c is v[0] for v in arg_convs.values()):
-            tgt = getattr(c, "_parent", None)
-            if isinstance(tgt, ast.Assign):
-                last_conv = norm(tgt.targets[0])
-    # the passes form a chain: args -> pass 1 -> pass 2 -> pass 3 -> fn(*result)
-    arg_calls = sorted([v[0] for v in arg_convs.values()], key=lambda c: c.lineno)
+    # what the function is called on, path by path: the composition of the passes applied to the wrapper's own arguments
+    #   fn(*for_each_in(L_bool, for_each_in(L_float, for_each_in(L_int, args))))
+    # (a path that skips the passes is fine only where there are no arguments: `if not args`)
     vararg = sn.node.args.vararg.arg if sn.node.args.vararg else None
-    cur = vararg
-    chain_ok = True
-    for c in arg_calls:
-        src = norm(c.args[1])
-        tgt = getattr(c, "_parent", None)
-        if src != cur or not isinstance(tgt, ast.Assign):
+    star_nodes = [a.value for a in fc.args if isinstance(a, ast.Starred)]
+    chain_ok = bool(star_nodes)
+    why = "the function is not called on the converted arguments"
+    key = "snark/callargs"
+    for conds, e in (composed_at(sn.node, fc, star_nodes[0]) if star_nodes else []):
+        passes, base = unwrap_passes(e)
+        kinds = [pass_kind(l) for l in passes]
+        empty = any(norm(t) in ("not %s" % vararg, "len(%s) == 0" % vararg) and pol for t, pol in conds) or any(
+            norm(t) in (vararg, "len(%s) > 0" % vararg) and not pol for t, pol in conds)
+        if norm(base) != vararg:
             chain_ok = False
-            rule.violation(sn.loc(c), sn.fq, "%s reads `%s`, the previous pass produced `%s`" % (norm(tgt)[:70] if tgt is not None else norm(c)[:70], src, cur),
-                           "an argument-conversion pass does not consume the output of the previous pass: the previous conversion "
-                           "is dropped and those arguments reach the function unconverted", "snark/chain/%s" % norm(c.args[0].body.test)[:30])
+            if any(isinstance(x, ast.Call) and norm(x.func) == "for_each_in" for x in ast.walk(base)):
+                why = "an argument-conversion pass does not consume the output of the previous pass: the previous conversion " \
+                      "is dropped and those arguments reach the function unconverted"
+                key = "snark/chain/%s" % norm(base)[:30]
             break
-        cur = norm(tgt.targets[0])
-    if chain_ok and starred and starred[0] == cur:
-        rule.ok(sn.loc(fc), sn.fq, norm(fc), "passes chained args -> ... -> `%s`; the function receives the converted arguments" % cur)
-    elif chain_ok:
-        rule.violation(sn.loc(fc), sn.fq, norm(fc), "the function is not called on the converted arguments", "snark/callargs")
+        if empty and not passes:
+            continue
+        have = {k[0]: k[1] for k in kinds if k}
+        if not (have.get("int", "").startswith("PubVal(") and have.get("float", "").startswith("PubValFxp(")):
+            chain_ok = False
+            why = "on the path {%s} the arguments reach the function without the int / float conversions" % ", ".join(
+                ("" if pol else "not ") + norm(t) for t, pol in conds)
+            break
+    if chain_ok:
+        rule.ok(sn.loc(fc), sn.fq, norm(fc), "on every path the function receives for_each_in(...)(args) with all the conversion passes applied")
+    else:
+        rule.violation(sn.loc(fc), sn.fq, norm(fc), why, key)
     kw = [s for s in sn.node.body if isinstance(s, ast.If) and norm(s.test) in ("kwargs", "len(kwargs) > 0", "kwargs != {}")
           and any(isinstance(b, ast.Raise) for b in s.body)]
     fnode = [n for n in range(cfg.n) if cfg.stmt[n] is not None and fc in calls_in(own_stmt_part(cfg.stmt[n], cfg.kind[n]))]
@@ -265,16 +314,15 @@ def rule_results(repo, rule, res_convs, sn, fc):
     rets = [n for n in ast.walk(sn.node) if isinstance(n, ast.Return) and not any(isinstance(p, ast.Lambda) for p in parents(n))]
     # the returned name is the last conversion of the function's result
     retvar = norm(getattr(fc, "_parent").targets[0]) if isinstance(getattr(fc, "_parent", None), ast.Assign) else None
-    chain_ok = False
+    chain_ok = bool(rets)
     cur = retvar
-    for c in [v[0] for v in sorted(res_convs.values(), key=lambda v: v[0].lineno)]:
-        if norm(c.args[1]) == cur and isinstance(getattr(c, "_parent", None), ast.Assign):
-            cur = norm(c._parent.targets[0])
-            chain_ok = True
-        else:
-            chain_ok = False
-            break
-    if rets and chain_ok and norm(rets[0].value) == cur:
+    for r_ in rets:
+        for _conds, e in composed_at(sn.node, r_, r_.value, stop_at=fc):
+            passes, base = unwrap_passes(e)
+            have = {k[0]: k[1] for k in (pass_kind(l) for l in passes) if k}
+            if not (norm(base) == retvar or base is fc or norm(base) == norm(fc)) or not all(have.get(t) == "x.val()" for t in ("LinComb", "LinCombFxp", "LinCombBool")):
+                chain_ok = False
+    if rets and chain_ok:
         rule.ok(sn.loc(rets[0]), sn.fq, "returns the plain values of the function's own result (%s -> %s)" % (retvar, cur))
     else:
         rule.violation(sn.loc(), sn.fq, "return %s" % (norm(rets[0].value) if rets else None), "the wrapper does not return the "
@@ -311,9 +359,24 @@ def rule_results(repo, rule, res_convs, sn, fc):
         rets = [n for n in ast.walk(f.node) if isinstance(n, ast.Return)] if f else []
         if rets and norm(rets[0].value) in want:
             rule.ok(f.loc(), f.fq, norm(rets[0].value))
+        elif f is not None and _same_effects(repo, f.fq, val.fq) and any(
+                isinstance(x, ast.Attribute) and norm(x) == "%s.lc" % f.params[0] for r_ in rets for x in ast.walk(r_.value)):
+            # written differently (the unwrapping moved into a helper): the emission term of the wrapper's val() - computed by the
+            # abstract interpreter through whatever helpers it calls - is that of LinComb.val: one public wire, one tying
+            # constraint, nothing else; and what it hands on is its own .lc
+            rule.ok(f.loc(), f.fq, norm(rets[0].value), "emits exactly what LinComb.val emits (one public wire tied to the computed wire)")
         else:
             rule.violation(f.loc() if f else mod, "%s:%s.val" % (mod, cn), norm(rets[0].value) if rets else "", "wrapper val() does not "
                            "publish through LinComb.val", "%s/val" % cn)
+
+
+def _same_effects(repo, fq_a, fq_b):
+    from .c06 import get_interp
+    from ..efftree import render
+    it = get_interp(repo)
+    ta = {render(t) for k, (t, _v) in it.memo.items() if k[0] == fq_a}
+    tb = {render(t) for k, (t, _v) in it.memo.items() if k[0] == fq_b}
+    return bool(ta) and bool(tb) and ta <= tb
 
 
 def rule_nothing_else(repo, rule, sn):
